@@ -506,18 +506,18 @@ impl Factors {
                 "No se han definido los consumos para la cogeneración".into(),
             ));
         };
+        // Cogenerated electricity in the whole calculation period
+        let prod_an: f32 = prod.iter().sum();
         let mut fP_exp_el_cgn_A = RenNrenCo2::default();
         for (carrier, used_t) in used {
             if only_nearby && !carrier.is_nearby() {
                 continue;
             }
             let fP_A_cr = self.find(carrier, Source::RED, Dest::SUMINISTRO, Step::A)?;
-            let used_prod_ratio_sum = used_t
-                .iter()
-                .zip(prod.iter())
-                .map(|(us, pr)| if *pr > 0.0 { us / pr } else { 0.0 })
-                .sum::<f32>();
-            fP_exp_el_cgn_A += fP_A_cr * used_prod_ratio_sum;
+            // Weighted cogeneration input divided by cogenerated electricity (both for the whole period)
+            let used_an: f32 = used_t.iter().sum();
+            let used_prod_ratio = if prod_an > 0.0 { used_an / prod_an } else { 0.0 };
+            fP_exp_el_cgn_A += fP_A_cr * used_prod_ratio;
         }
         Ok(Some(fP_exp_el_cgn_A))
     }
